@@ -35,7 +35,7 @@ REQUIRED = {"wild.streams_restored_after_the_run": {"quick": 8, "thorough": 300}
             "report.failing_step_has_exactly_its_scenarios_output": {"quick": 400, "thorough": 20000},
             "formatter.no_output_of_passing_scenarios": {"quick": 300, "thorough": 15000},
             "run.streams_restored_at_end": {"quick": 600, "thorough": 30000}}
-REQUIRED_SEEN = {"junit_forces_capture": ["with_some_switch_off"], "hooks_log_before_the_first_scenario": ["yes"], "failing_step_argument": ["doc_string", "table", "none"], "junit_output_habit": ["plain", "control_sequences"], "reported_step_status": ["failed", "error", "pending"], "switches": ["out1err1log1", "out1err1log0", "out1err0log1", "out1err0log0", "out0err1log1", "out0err1log0",
+REQUIRED_SEEN = {"junit_forces_capture": ["with_some_switch_off"], "neighbouring_scenarios": ["same_keyword_and_title"], "hooks_log_before_the_first_scenario": ["yes"], "failing_step_argument": ["doc_string", "table", "none"], "junit_output_habit": ["plain", "control_sequences"], "reported_step_status": ["failed", "error", "pending"], "switches": ["out1err1log1", "out1err1log0", "out1err0log1", "out1err0log0", "out0err1log1", "out0err1log0",
                               "out0err0log1", "out0err0log0"],
                  "log_habit": ["plain", "flush", "bulk", "peek", "tee_only"], "setup_logging_from_hook": ["DEBUG", "WARNING"],
                  "capture_switched_at_runtime": ["per scenario"],
@@ -490,6 +490,49 @@ def subprocess_case(mon, rng, case):
         mon.seen("passthrough_logging_project", "environment_without_before_all")
 
 
+def same_title_neighbours(lab, mon, rng):
+    """Two scenarios with the SAME keyword and title directly after each other (copy / paste, or rows of an outline under the name
+    schema '{name}'): each has a capture of its own -- the failure report of the second holds its own output and none of the first's."""
+    n = rng.randint(2, 3)
+    scen = []
+    for j in range(n):
+        last = j == n - 1
+        scen.append({"kind": "scenario", "tags": [], "name": "Same title", "desc": [],
+                     "steps": [{"kw": "Given", "text": "k%d is ready" % (10 * j + 2)}, {"kw": "Then", "text": "k%d checks x" % (10 * j + 4)}]})
+    feat = {"kind": "feature", "tags": [], "name": "F0", "desc": [], "background": None, "file": "f0.feature", "items": scen}
+    failing = "k%d checks x" % (10 * (n - 1) + 4)
+    program = {"features": [feat], "outcomes": {failing: "fail"}}
+    chan = rng.choice(["stdout", "stderr", "log"])
+    args = {"stdout": [], "stderr": [], "log": ["--no-capture", "--no-capture-stderr"]}[chan]
+
+    def plug(state, context, text):
+        sid = text.split(" ")[0]
+        if chan == "stdout":
+            sys.stdout.write("OUT-%s;\n" % sid)
+        elif chan == "stderr":
+            sys.stderr.write("OUT-%s;\n" % sid)
+        else:
+            logging.getLogger("bvm.c18.same").warning("OUT-%s;", sid)
+    obs = lab.run(program, args=args, step_plugins=[plug])
+    case = {"kind": "same-title-neighbours", "scenarios": n, "channel": chan}
+    mon.case(("same-title", n, chan), True)
+    mon.seen("neighbouring_scenarios", "same_keyword_and_title")
+    if obs.escaped is not None:
+        mon.check("report.failing_step_has_exactly_its_scenarios_output", False, dict(case=case, escaped=repr(obs.escaped)))
+        return
+    msg = None
+    for f in obs.features:
+        for sc in f.walk_scenarios():
+            for st in sc.all_steps:
+                if st.name == failing:
+                    msg = st.error_message or ""
+    own = ["OUT-k%d;" % (10 * (n - 1) + 2), "OUT-k%d;" % (10 * (n - 1) + 4)]
+    foreign = ["OUT-k%d;" % (10 * j + k) for j in range(n - 1) for k in (2, 4)]
+    ok = msg is not None and all(x in msg for x in own) and not any(x in msg for x in foreign)
+    mon.check("report.failing_step_has_exactly_its_scenarios_output", ok,
+              lambda: dict(case=case, report=(msg or "")[-600:], own=own, foreign_found=[x for x in foreign if msg and x in msg]))
+
+
 CONTROL = ["\x1b[2K", "\x1b[K", "\x1b[1G", "\x1b[?25l", "\x1b[?25h", "\x1b[31m", "\x1b[0m", "\x1b[1A", "\x1b[31;1m", "\r"]
 
 
@@ -650,6 +693,8 @@ def run(spec, mon):
     lab._state = None
     for i in range(6 if tier == "quick" else 200):
         junit_report_case(lab, mon, rng)
+    for i in range(4 if tier == "quick" else 100):
+        same_title_neighbours(lab, mon, rng)
     for i in range(1 if tier == "quick" else 30):
         case = RB.gen_case(rng, gen={"p_nonpass": 0.3, "max_features": 1, "outcomes": [o for o in OUTCOMES if o != "ki"]},
                            p_stop=0, p_dry=0, tags=False)
